@@ -152,8 +152,8 @@ func (c *VCtx) strEq(a, b *Term) *Term {
 
 func (c *VCtx) strConcat(a, b *Term) *Term {
 	r := c.fresh("cat", SStr)
-	c.fact(Eq(StrLen(r), Add(StrLen(a), StrLen(b))))
-	c.fact(T(SBool, fmt.Sprintf("(forall ((i Int)) (! (= (select (str-data %s) i) (ite (< i (str-len %s)) (select (str-data %s) i) (select (str-data %s) (- i (str-len %s))))) :pattern ((select (str-data %s) i))))", r.S, a.S, a.S, b.S, a.S, r.S)))
+	c.defFact(r, Eq(StrLen(r), Add(StrLen(a), StrLen(b))))
+	c.defFact(r, T(SBool, fmt.Sprintf("(forall ((i Int)) (! (= (select (str-data %s) i) (ite (< i (str-len %s)) (select (str-data %s) i) (select (str-data %s) (- i (str-len %s))))) :pattern ((select (str-data %s) i))))", r.S, a.S, a.S, b.S, a.S, r.S)))
 	return r
 }
 
@@ -240,15 +240,15 @@ func (c *VCtx) convert(fr *Frame, st *State, x *ssa.Convert) Val {
 			Eq(sel(2), Add(IntLit(0x80), T(SInt, fmt.Sprintf("(mod (div %s 64) 64)", t.S)))),
 			Eq(sel(3), Add(IntLit(0x80), T(SInt, fmt.Sprintf("(mod %s 64)", t.S)))))
 		bad := And(Eq(StrLen(r), IntLit(3)), Eq(sel(0), IntLit(0xEF)), Eq(sel(1), IntLit(0xBF)), Eq(sel(2), IntLit(0xBD)))
-		c.fact(Ite(Not(valid), bad, Ite(Lt(t, IntLit(0x80)), one, Ite(Lt(t, IntLit(0x800)), two, Ite(Lt(t, IntLit(0x10000)), three, four)))))
+		c.defFact(r, Ite(Not(valid), bad, Ite(Lt(t, IntLit(0x80)), one, Ite(Lt(t, IntLit(0x800)), two, Ite(Lt(t, IntLit(0x10000)), three, four)))))
 		return r
 	case fs == SSlice && ts == SStr:
 		// string(bytes)
 		s := c.asTerm(v)
 		r := c.fresh("bstr", SStr)
 		h := c.heap(st, elemHeapName(SInt), ArrSort(SRef, ArrSort(SInt, SInt)))
-		c.fact(Eq(StrLen(r), SlLen(s)))
-		c.fact(T(SBool, fmt.Sprintf("(forall ((i Int)) (! (=> (and (<= 0 i) (< i (s-len %s))) (= (select (str-data %s) i) (select (select %s (s-arr %s)) (+ (s-off %s) i)))) :pattern ((select (str-data %s) i))))", s.S, r.S, h.S, s.S, s.S, r.S)))
+		c.defFact(r, Eq(StrLen(r), SlLen(s)))
+		c.defFact(r, T(SBool, fmt.Sprintf("(forall ((i Int)) (! (=> (and (<= 0 i) (< i (s-len %s))) (= (select (str-data %s) i) (select (select %s (s-arr %s)) (+ (s-off %s) i)))) :pattern ((select (str-data %s) i))))", s.S, r.S, h.S, s.S, s.S, r.S)))
 		return r
 	case fs == SStr && ts == SSlice:
 		s := c.asTerm(v)
@@ -349,8 +349,8 @@ func (c *VCtx) sliceOp(fr *Frame, st *State, x *ssa.Slice) Val {
 
 func (c *VCtx) substr(s, lo, hi *Term) *Term {
 	r := c.fresh("sub", SStr)
-	c.fact(Eq(StrLen(r), Sub(hi, lo)))
-	c.fact(T(SBool, fmt.Sprintf("(forall ((i Int)) (! (= (select (str-data %s) i) (select (str-data %s) (+ i %s))) :pattern ((select (str-data %s) i))))", r.S, s.S, lo.S, r.S)))
+	c.defFact(r, Eq(StrLen(r), Sub(hi, lo)))
+	c.defFact(r, T(SBool, fmt.Sprintf("(forall ((i Int)) (! (= (select (str-data %s) i) (select (str-data %s) (+ i %s))) :pattern ((select (str-data %s) i))))", r.S, s.S, lo.S, r.S)))
 	return r
 }
 
